@@ -76,7 +76,8 @@ class cpu_budget:
 
     def __enter__(self):
         self.old = signal.signal(signal.SIGPROF, _on_alarm)
-        signal.setitimer(signal.ITIMER_PROF, self.seconds)
+        # repeated: code under test may swallow the first HangDetected (a bare `except:`) and go on computing
+        signal.setitimer(signal.ITIMER_PROF, self.seconds, 0.5)
         return self
 
     def __exit__(self, *a):
